@@ -42,7 +42,7 @@ def main():
         checks = meta.get('checks', [pid])
         out['checks'] = {}
         for c in checks:
-            r = sh('python3-vt -m vc.check %s' % c, cwd=VERIF)
+            r = sh('python3-vt -m vc.check %s' % c, cwd=VERIF, env=dict(os.environ, VERIF_EVIDENCE_DIR=os.path.join(VERIF, '.build', 'seed-evidence')))
             out['checks'][c] = {'exit': r.returncode, 'lines': [l for l in r.stdout.splitlines() if l.startswith(('VIOLATION', 'RESULT', 'UNDECIDED', 'CHECKER', 'KNOWN'))][:6]}
     finally:
         sh('git -C /repo checkout -- .')
